@@ -82,6 +82,16 @@ def innerOOB : Nat × Nat → List (MatOp × Option Nat) → Bool
         | some j => decide (j ≥ s.2)
         | none => false) || innerOOB (matOpShape s op) rest
 
+/-- a step of a move history: only the relative requests have a guard; moves, swaps and copies always return -/
+def pMoveStep : P (Option RelReq) := do
+  let t ← tok
+  match splitNats t with
+  | some ("mc", [_, _]) | some ("ma", [_, _]) | some ("pb", [_, _]) | some ("sw", [_, _]) | some ("cp", [_, _]) => pure none
+  | some ("use", [_]) => pure (some .useAll)
+  | some ("atsize", [_]) => pure (some .atSize)
+  | some ("grow", [_, k]) => pure (some (.grow k))
+  | _ => failure
+
 def ones (n : Nat) : List Rat := List.replicate n 1
 def p2 : P (Nat × Nat) := do let a ← pNat; let b ← pNat; pure (a, b)
 def p3 : P (Nat × Nat × Nat) := do let a ← pNat; let b ← pNat; let c ← pNat; pure (a, b, c)
@@ -101,6 +111,12 @@ def handle : Handler := fun op args =>
       withArgs p2 args fun (n, m) => ans (vecPairGuard n m) (vecPairReads (ones n) (ones m))
   | "c10.vec.cross" => withArgs p2 args fun (n, m) => ans (crossGuard n m) (crossReads (ones n) (ones m))
   -- 2. Matrix
+  | "c10.vec.move" => withArgs (do let dims ← pNats; let st ← pList pMoveStep; pure (dims, st)) args fun (_, st) =>
+      -- the objects are in states the model does not know (moved-from: unspecified but self-consistent); by
+      -- `vecRel_shape_free` the guards of the relative requests do not depend on them: evaluated at size 0
+      ans (seqGuard (st.filterMap id |>.map (vecRelGuard 0)))
+  | "c10.mat.move" => withArgs (do let sh ← pList p2; let st ← pList pMoveStep; pure (sh, st)) args fun (_, st) =>
+      ans (seqGuard (st.filterMap id |>.map (matRelGuard (0, 0))))
   | "c10.mat.hist" => withArgs (do let r ← pNat; let c ← pNat; let ops ← pList pMatOp; pure (r, c, ops)) args fun (r, c, ops) =>
       if innerOOB (r, c) ops then "undef" else ans (matHistGuard (r, c) (ops.map (·.1)))
   | "c10.vec.hist" => withArgs (do let d ← pNat; let ops ← pList pVecOp; pure (d, ops)) args fun (d, ops) => ans (vecHistGuard d ops)
